@@ -85,8 +85,13 @@ func (w *World) TypeSets() *tsEngine {
 	return e
 }
 
+// tsTypes remembers the type behind each rendered name (for method-set questions about a type set).
+var tsTypes = map[string]types.Type{}
+
 func typeName(t types.Type) string {
-	return types.TypeString(t, func(p *types.Package) string { return p.Name() })
+	n := types.TypeString(t, func(p *types.Package) string { return p.Name() })
+	tsTypes[n] = t
+	return n
 }
 
 func isInterface(t types.Type) bool {
